@@ -565,15 +565,15 @@ def gen_nearint_case(rng, pick=None):
 def gen_dec_cases(rng, tier):
     q = tier == 'quick'
     out = enum_dec_cases(rng, full=not q)
-    for pick in (rng.sample(NEAR_BELOW + NEAR_ABOVE, 12) if q else (NEAR_BELOW + NEAR_ABOVE) * 6):
+    for pick in (rng.sample(NEAR_BELOW + NEAR_ABOVE, 12) if q else (NEAR_BELOW + NEAR_ABOVE) * 2):
         c = gen_nearint_case(rng, pick)
         if c is not None:
             out.append(c)
-    for _ in range(14 if q else 300):
+    for _ in range(14 if q else 150):
         c = gen_inner_case(rng)
         if c is not None:
             out.append(c)
-    for _ in range(110 if q else 3000):
+    for _ in range(110 if q else 800):
         out.append(gen_dec_case(rng))
     return out
 
